@@ -6,6 +6,11 @@ BASE = json.load(open("/root/.vp/BASELINE.json"))["cmd"] if os.path.exists("/roo
     "cd /repo && /venv/bin/python -m pytest -ra -q -p no:cacheprovider --timeout=900 --continue-on-collection-errors"
 
 CLAIMED = {
+ "C01": dict(
+    technique="static analysis: guard-dominance of 'optimal' returns by truth-table implication over path conditions, reported==tested binding through the result dictionary, ordered result-finalisation (typestate), block-offset extent algebra, definite assignment",
+    text="Static, exhaustive over conelp/lp/socp/sdp: decides structural necessary conditions of C01 - each 'optimal' return is dominated by the documented stop test on exactly the variables the result reports (start-up shortcut only under its exact justifying conditions incl. kktreg is None), tolerances bound once from options, iterations <= maxiters by loop shape, results rescaled by 1/tau then symmetrised and slacks recomputed and reported, socp/sdp pieces are an exact partition of s and z behind the None test, every block walk advances its offset by exactly what it touches, external-solver branches resolve and assign everything they report, cone-space vectors normed with the cone inner product. It does NOT decide that the residual/gap formulas are numerically right nor convergence.",
+    note="Trusted: CPython ast, the implication/path-condition engine (sa/pyfront.py), the footprint table in sa/offsets.py, the stop criteria as documented in coneprog.rst. BLAS/LAPACK/misc kernels are assumed to compute their documented operation (C07/C08/C17/C18).",
+    ref="DESIGN.md section 3, C01"),
  "C10": dict(
     technique="static analysis: Python ast + hand-built CFG; protected-call-site (who-must-wrap) rule, handler typestate, path-sensitive definite assignment, cross-module name/attribute/call-signature resolution",
     text="Static, exhaustive over the source: decides structural necessary conditions of C10 on every path of conelp/coneqp/cpl/cp - every KKT factor/solve call site is inside try/except ArithmeticError; every handler path ends in the documented ValueError (first iteration only), an 'unknown' result with the full field set after the regular symmetrise/max_step epilogue, or cpl's protected retry, never 'optimal'; every raise resolves to TypeError/ValueError; no unresolved name/module attribute, possibly-unassigned local or unbindable call in any solver-module function; F's refusals are tested in the line search. It does NOT decide the numerical clause (s, z strictly interior in the 'unknown' result).",
